@@ -34,7 +34,7 @@ def make(rng, k):
     tm = SDV.TimingsSpec(initMin=0, initMax=rng.choice([0, 10]), reps=rng.choice([0, 2]), base=rng.choice([3, 10]),
                          cyclic=rng.choice([0, 40, 300]), coll=rng.choice([0, 5, 5, 20]), refresh=None,
                          rrMin=rng.choice([0, 5]), rrMax=rng.choice([5, 20]), annTtl=3)
-    sc = Sc(rng, tm, [S0, S1][: rng.choice([1, 2])], W, nsteps=rng.choice([40, 80, 120]), adversarial=True)
+    sc = Sc(rng, tm, [S0, S1][: rng.choice([1, 2])], W, nsteps=rng.choice([40, 80, 120]), adversarial=True, peers=rng.choice([3, 3, 5]))
     sc.sub_counts = [1, 1, 2, 5, 20, 40]
     return sc
 
